@@ -1,6 +1,8 @@
 (* C12 (end-to-end part) and the pair-creation half of C11: cmd_epr for a create-and-keep request of one pair
-   (executioner.py 377-460, send_epr_half 623-666).  The decision function may_create / is_adjacent itself is modelled and
-   translated in Qasm/Topo.v (other builder); here `adj` is its result. *)
+   (executioner.py cmd_epr, send_epr_half), as repaired by fixes/D16ii-epr-temporaries.diff: when anything fails before the
+   hand-over is complete, the temporary qubits that exist are removed again (_clear_phys_qubit_in_memory), the physical id is
+   released and the error is re-raised.  The decision function may_create / is_adjacent itself is modelled and translated in
+   Qasm/Topo.v (other builder); here `adj` is its result. *)
 From Coq Require Import List Bool Arith Lia.
 From SQ Require Import Base.ListUtil Stab.Tableau Net.Model Net.Refusal Net.Population Qasm.Exec.
 Import ListNotations.
@@ -12,7 +14,74 @@ Definition check_ok (known : list nat) (self r : nat) (adj : bool) (c : epr_chec
   match c with CKnown => mem_nat r known | CNotSelf => negb (Nat.eqb r self) | CAdjacent => adj end.
 Definition epr_gate (known : list nat) (self r : nat) (adj : bool) : bool := forallb (check_ok known self r adj) epr_checks.
 
-Definition cmd_epr_keep (i : nat) (s : qst) (known : list nat) (r : nat) (adj : bool) (qid : nat) : qst * qres * ntrace :=
+(* _clear_phys_qubit_in_memory(p) for ANY physical id, the temporary ids -(1+n) included: cmd_measure(p, inplace=False), then
+   remove_qubit_id(p).  Exec.clear_phys is the instance p = PP n. *)
+Definition clear_pid (s : qst) (p : pid) (coin : bool) : qst * bool * ntrace :=
+  match virt_of (q_host s) p with
+  | None => (s, false, [])                                           (* UnknownQubitError *)
+  | Some hd =>
+      let '(s1, r, tr) := native s (OMeas hd false coin) in
+      match r with
+      | Ok _ => (mkQ (q_net s1) (with_qlist (q_host s1) (premove p (h_qlist (q_host s1)))), true, tr)
+      | _ => (s1, false, tr)
+      end
+  end.
+Lemma clear_phys_is_clear_pid s p c : clear_phys s p c = clear_pid s (PP p) c.
+Proof. reflexivity. Qed.
+
+(* the except-branch of cmd_epr (since the D16(ii) repair):  for q_id in [qubit_id, -(1+qubit_id)]: if q_id in qubitList:
+   _clear_phys_qubit_in_memory(q_id).  One coin per measurement actually made, in order (as QStopApp's coins). A failing removal
+   ends the loop (its exception replaces the original one; the request fails either way). *)
+Fixpoint epr_cleanup (s : qst) (ps : list pid) (coins : list bool) : qst * ntrace :=
+  match ps with
+  | [] => (s, [])
+  | p :: t =>
+      match virt_of (q_host s) p with
+      | None => epr_cleanup s t coins
+      | Some _ =>
+          let '(s1, ok, tr) := clear_pid s p (hd false coins) in
+          if ok then let '(s2, tr2) := epr_cleanup s1 t (tl coins) in (s2, tr ++ tr2) else (s1, tr)
+      end
+  end.
+(* a request that fails inside the try block: the error is re-raised after the temporaries were removed.  The physical id qid
+   (reserved by _get_unused_physical_qubit in _do_create_epr) is released: in the model it is entered into h_used only when the
+   kept half is bound (TeardownNet.map_addr), so h_used is simply unchanged here. *)
+Definition epr_fail (s : qst) (qid : nat) (coins : list bool) (tr : ntrace) : qst * qres * ntrace :=
+  let '(sc, tc) := epr_cleanup s [PP qid; PM qid] coins in (sc, RErr, tr ++ tc).
+
+(* cmd_epr for a create-and-keep request of one pair.  coins: the coins of the destructive measurements of the cleanup (used
+   only when the request fails after a temporary exists) *)
+Definition cmd_epr_keep (i : nat) (s : qst) (known : list nat) (r : nat) (adj : bool) (qid : nat) (coins : list bool)
+  : qst * qres * ntrace :=
+  if negb (epr_gate known i r adj) then (s, RErr, [])                  (* refused before any creation: see below *)
+  else
+    let '(s1, ok1, t1) := cmd_new i s (PP qid) in
+    if negb ok1 then epr_fail s1 qid coins t1 else
+    let '(s2, ok2, t2) := cmd_new i s1 (PM qid) in
+    if negb ok2 then epr_fail s2 qid coins (t1 ++ t2) else          (* the first temporary is removed again *)
+    match virt_of (q_host s2) (PP qid), virt_of (q_host s2) (PM qid) with
+    | Some h1, Some h2 =>
+        let '(s3, r3, t3) := native s2 (OGate1 h1 NH) in
+        let '(s4, r4, t4) := native s3 (OGate2 h1 h2 NCnot) in
+        let '(s5, r5, t5) := native s4 (OSend h2 r) in          (* netqasm_send_epr_half -> remote_send_qubit *)
+        match r5 with
+        | Ok _ => (mkQ (q_net s5) (with_qlist (q_host s5) (premove (PM qid) (h_qlist (q_host s5)))), RDone None,
+                   t1 ++ t2 ++ t3 ++ t4 ++ t5)
+        | _ => epr_fail s5 qid coins (t1 ++ t2 ++ t3 ++ t4 ++ t5)      (* receiver refused: both temporaries are removed *)
+        end
+    | _, _ => epr_fail s2 qid coins (t1 ++ t2)
+    end.
+
+(* the three checks are made inside the try block as well: the except-branch then looks the two ids up in qubitList, finds
+   neither (qid is an unused physical id and qubitList's keys are used ids: TeardownX.x_keys; see gate_refusal_cleanup_is_noop)
+   and releases qid -- nothing to model *)
+Lemma gate_refusal_cleanup_is_noop s qid coins :
+  plookup (PP qid) (h_qlist (q_host s)) = None -> plookup (PM qid) (h_qlist (q_host s)) = None ->
+  epr_fail s qid coins [] = (s, RErr, []).
+Proof. intros A B. unfold epr_fail. cbn [epr_cleanup]. unfold virt_of. rewrite A, B. reflexivity. Qed.
+
+(* the code BEFORE the repair (no except-branch): kept only to show what the repair changed (unrepaired_leak below) *)
+Definition cmd_epr_keep_unrepaired (i : nat) (s : qst) (known : list nat) (r : nat) (adj : bool) (qid : nat) : qst * qres * ntrace :=
   if negb (epr_gate known i r adj) then (s, RErr, [])
   else
     let '(s1, ok1, t1) := cmd_new i s (PP qid) in
@@ -23,7 +92,7 @@ Definition cmd_epr_keep (i : nat) (s : qst) (known : list nat) (r : nat) (adj : 
     | Some h1, Some h2 =>
         let '(s3, r3, t3) := native s2 (OGate1 h1 NH) in
         let '(s4, r4, t4) := native s3 (OGate2 h1 h2 NCnot) in
-        let '(s5, r5, t5) := native s4 (OSend h2 r) in          (* netqasm_send_epr_half -> remote_send_qubit *)
+        let '(s5, r5, t5) := native s4 (OSend h2 r) in
         match r5 with
         | Ok _ => (mkQ (q_net s5) (with_qlist (q_host s5) (premove (PM qid) (h_qlist (q_host s5)))), RDone None,
                    t1 ++ t2 ++ t3 ++ t4 ++ t5)
@@ -44,46 +113,81 @@ Proof.
 Qed.
 
 (* refused_creates_nothing: unknown id, itself, or not adjacent: error, no native call, the whole state unchanged *)
-Theorem refused_creates_nothing i s known r adj qid :
-  epr_gate known i r adj = false -> cmd_epr_keep i s known r adj qid = (s, RErr, []).
+Theorem refused_creates_nothing i s known r adj qid coins :
+  epr_gate known i r adj = false -> cmd_epr_keep i s known r adj qid coins = (s, RErr, []).
 Proof. intro H. unfold cmd_epr_keep. rewrite H. reflexivity. Qed.
+
+Lemma epr_fail_res s qid coins tr : snd (fst (epr_fail s qid coins tr)) = RErr.
+Proof. unfold epr_fail. destruct (epr_cleanup s [PP qid; PM qid] coins). reflexivity. Qed.
 
 (* half_survives: after a successful creation the sent half is no longer in the creator's qubitList (so nothing the creator
    does later -- qfree, stop -- can reach it: every native call of the host goes through a qubitList handle) *)
-Theorem half_survives i s known r adj qid s' tr :
-  cmd_epr_keep i s known r adj qid = (s', RDone None, tr) -> plookup (PM qid) (h_qlist (q_host s')) = None.
+Theorem half_survives i s known r adj qid coins s' tr :
+  cmd_epr_keep i s known r adj qid coins = (s', RDone None, tr) -> plookup (PM qid) (h_qlist (q_host s')) = None.
 Proof.
+  assert (F : forall s0 tr0, epr_fail s0 qid coins tr0 <> (s', RDone None, tr)).
+  { intros s0 tr0 E. pose proof (epr_fail_res s0 qid coins tr0) as R. rewrite E in R. discriminate. }
   unfold cmd_epr_keep. destruct (negb (epr_gate known i r adj)); [discriminate|].
-  destruct (cmd_new i s (PP qid)) as [[s1 ok1] t1]. destruct (negb ok1); [discriminate|].
-  destruct (cmd_new i s1 (PM qid)) as [[s2 ok2] t2]. destruct (negb ok2); [discriminate|].
-  destruct (virt_of (q_host s2) (PP qid)) as [h1|]; [|discriminate].
-  destruct (virt_of (q_host s2) (PM qid)) as [h2|]; [|discriminate].
+  destruct (cmd_new i s (PP qid)) as [[s1 ok1] t1]. destruct (negb ok1); [intro E; destruct (F _ _ E)|].
+  destruct (cmd_new i s1 (PM qid)) as [[s2 ok2] t2]. destruct (negb ok2); [intro E; destruct (F _ _ E)|].
+  destruct (virt_of (q_host s2) (PP qid)) as [h1|]; [|intro E; destruct (F _ _ E)].
+  destruct (virt_of (q_host s2) (PM qid)) as [h2|]; [|intro E; destruct (F _ _ E)].
   destruct (native s2 (OGate1 h1 NH)) as [[s3 r3] t3]. destruct (native s3 (OGate2 h1 h2 NCnot)) as [[s4 r4] t4].
-  destruct (native s4 (OSend h2 r)) as [[s5 r5] t5]. destruct r5; try discriminate.
-  intro E. inversion E; subst. simpl.
-  induction (h_qlist (q_host s5)) as [|[k0 v0] l IH]; simpl; auto.
-  destruct (pid_eqb_spec k0 (PM qid)); simpl; auto. destruct (pid_eqb_spec k0 (PM qid)); [contradiction|auto].
+  destruct (native s4 (OSend h2 r)) as [[s5 r5] t5]. destruct r5; try (intro E; destruct (F _ _ E)).
+  intro E. inversion E; subst. cbn [q_host h_qlist with_qlist]. clear.
+  generalize (h_qlist (q_host s5)) as l. induction l as [|[k0 v0] l IH]; simpl; auto.
+  destruct (pid_eqb_spec k0 (PM qid)) as [Ek|Nk]; simpl; auto. destruct (pid_eqb_spec k0 (PM qid)); [contradiction|auto].
 Qed.
 
-(* C11 refuted for failed pair creation: the receiver (node 1, capacity 0) refuses the half; both temporaries stay in
-   qubitList under ids no unit module maps; stopping the application does not remove them: the creator's node keeps 2 qubits *)
+(* the scenario of the former finding C11:epr-temporaries: the receiver (node 1, capacity 0) refuses the half after both
+   temporaries were created.  Repaired code: the request still fails, the two temporaries are measured out again (trace), and
+   the creator's node and host are back at what they were; the following stop finds nothing to clear *)
 Definition leak_start : qst := fst (fst (exec 0 (mkQ (init_net [(4, 5); (0, 5)]) empty_host) (QInitApp 0 2))).
-Definition leak_after_create : qst := fst (fst (cmd_epr_keep 0 leak_start [0; 1] 1 true 0)).
+Definition leak_after_create : qst := fst (fst (cmd_epr_keep 0 leak_start [0; 1] 1 true 0 [true; false])).
 Definition leak_after_stop : qst := fst (fst (exec 0 leak_after_create (QStopApp 0 []))).
-Theorem stop_restores_refuted_failed_pair :
-  snd (fst (cmd_epr_keep 0 leak_start [0; 1] 1 true 0)) = RErr /\
+Definition node_counts (s : qst) (j : nat) : nat * nat * nat * nat :=
+  let nd := nth_node (q_net s) j in (length (virt nd), length (sims nd), length (regs nd), numRegs nd).
+Example failed_pair_restored :
+  snd (fst (cmd_epr_keep 0 leak_start [0; 1] 1 true 0 [true; false])) = RErr /\
+  snd (cmd_epr_keep 0 leak_start [0; 1] 1 true 0 [true; false]) =
+    [(ONew 0, Ok 0); (ONew 0, Ok 1); (OGate1 0 NH, OkNone); (OGate2 0 1 NCnot, OkNone); (OSend 1 1, Err KNoQubit);
+     (OMeas 0 false true, Ok 1); (OMeas 1 false false, Ok 1)] /\
+  q_host leak_after_create = q_host leak_start /\
+  node_counts leak_after_create 0 = node_counts leak_start 0 /\ node_counts leak_after_create 0 = (0, 0, 0, 0) /\
   snd (fst (exec 0 leak_after_create (QStopApp 0 []))) = RDone None /\
-  held (q_net leak_start) 0 = 0 /\ held (q_net leak_after_stop) 0 = 2 /\
-  h_units (q_host leak_after_stop) = [] /\ length (h_qlist (q_host leak_after_stop)) = 2.
+  node_counts leak_after_stop 0 = (0, 0, 0, 0) /\ h_units (q_host leak_after_stop) = [] /\ h_qlist (q_host leak_after_stop) = [].
+Proof. vm_compute. repeat split; reflexivity. Qed.
+
+(* ... and what the code did before the repair on the same input: both temporaries stay in qubitList under ids no unit module
+   maps; stopping the application does not remove them: the creator's node keeps 2 qubits *)
+Definition old_leak_after_create : qst := fst (fst (cmd_epr_keep_unrepaired 0 leak_start [0; 1] 1 true 0)).
+Definition old_leak_after_stop : qst := fst (fst (exec 0 old_leak_after_create (QStopApp 0 []))).
+Example unrepaired_leak :
+  snd (fst (cmd_epr_keep_unrepaired 0 leak_start [0; 1] 1 true 0)) = RErr /\
+  snd (fst (exec 0 old_leak_after_create (QStopApp 0 []))) = RDone None /\
+  held (q_net leak_start) 0 = 0 /\ held (q_net old_leak_after_stop) 0 = 2 /\
+  h_units (q_host old_leak_after_stop) = [] /\ length (h_qlist (q_host old_leak_after_stop)) = 2.
+Proof. vm_compute. repeat split; reflexivity. Qed.
+
+(* room for one more qubit only: the second cmd_new is refused, the first temporary is removed again; the creator holds another
+   qubit before and after *)
+Definition tight_start : qst :=
+  fst (fst (exec_list 0 (mkQ (init_net [(2, 5); (4, 5)]) empty_host) [QInitApp 0 2; QAlloc 0 1])).
+Example failed_second_creation_restored :
+  snd (fst (cmd_epr_keep 0 tight_start [0; 1] 1 true 1 [false])) = RErr /\
+  map fst (snd (cmd_epr_keep 0 tight_start [0; 1] 1 true 1 [false])) = [ONew 0; ONew 0; OMeas 1 false false] /\
+  q_host (fst (fst (cmd_epr_keep 0 tight_start [0; 1] 1 true 1 [false]))) = q_host tight_start /\
+  node_counts (fst (fst (cmd_epr_keep 0 tight_start [0; 1] 1 true 1 [false]))) 0 = node_counts tight_start 0 /\
+  node_counts tight_start 0 = (1, 1, 1, 1).
 Proof. vm_compute. repeat split; reflexivity. Qed.
 
 (* non-vacuity of the positive statements: a successful creation between two nodes with room *)
 Definition ok_start : qst := fst (fst (exec 0 (mkQ (init_net [(4, 5); (4, 5)]) empty_host) (QInitApp 0 2))).
 Example ex_create_ok :
-  snd (fst (cmd_epr_keep 0 ok_start [0; 1] 1 true 0)) = RDone None /\
-  map fst (snd (cmd_epr_keep 0 ok_start [0; 1] 1 true 0)) = [ONew 0; ONew 0; OGate1 0 NH; OGate2 0 1 NCnot; OSend 1 1] /\
-  held (q_net (fst (fst (cmd_epr_keep 0 ok_start [0; 1] 1 true 0)))) 0 = 1 /\
-  held (q_net (fst (fst (cmd_epr_keep 0 ok_start [0; 1] 1 true 0)))) 1 = 1.
+  snd (fst (cmd_epr_keep 0 ok_start [0; 1] 1 true 0 [])) = RDone None /\
+  map fst (snd (cmd_epr_keep 0 ok_start [0; 1] 1 true 0 [])) = [ONew 0; ONew 0; OGate1 0 NH; OGate2 0 1 NCnot; OSend 1 1] /\
+  held (q_net (fst (fst (cmd_epr_keep 0 ok_start [0; 1] 1 true 0 [])))) 0 = 1 /\
+  held (q_net (fst (fst (cmd_epr_keep 0 ok_start [0; 1] 1 true 0 [])))) 1 = 1.
 Proof. vm_compute. repeat split; reflexivity. Qed.
 Example ex_refused : epr_gate [0; 1] 0 0 true = false /\ epr_gate [0; 1] 0 2 true = false /\ epr_gate [0; 1] 0 1 false = false
   /\ epr_gate [0; 1] 0 1 true = true.
